@@ -1,0 +1,15 @@
+//go:build verif
+// +build verif
+
+package sshsb
+
+import (
+	"io"
+
+	"github.com/goatcms/goatcore/app/modules/commonm/commservices"
+)
+
+// VerifInitSequence exposes the start-up script builder (verification builds only).
+func VerifInitSequence(entrypoint string, envs commservices.Environments) (io.Reader, error) {
+	return (&SSHSandbox{entrypoint: entrypoint}).initSequence(envs)
+}
